@@ -517,7 +517,7 @@ def run(ctx):
     nimg = ctx.n(110, 2500)
     for i in range(nimg):
         kind = kinds[i % len(kinds)] if i < 3 * len(kinds) else rng.choice(kinds)
-        P = 12 if (i % 4 == 3) else 8
+        P = 12 if ((i // len(kinds)) + i) % 3 == 2 else 8
         im = gen_image(rng, kind, P)
         cfgs = gen_configs(rng, im, ctx.n(5, 7))
         cases.append((case_line(im, cfgs), "img-%s-%d" % (kind, P), im, cfgs))
